@@ -108,6 +108,7 @@ class Stats:
         self.steps = 0
         self.sim_time = 0.0
         self.samples = []
+        self.fidelity = []
 
     def add(self, st):
         for group, d in (st or {}).items():
@@ -117,6 +118,8 @@ class Stats:
                 self.steps += d
             elif group == "sim_time":
                 self.sim_time += d
+            elif group == "fidelity_mismatch":
+                self.fidelity.append(d)
             elif isinstance(d, dict):
                 self.c[group].update(d)
 
@@ -293,6 +296,11 @@ def explore(prop, mod, a):
 
     rc = EXIT_OK
     out_lines = []
+    if stats.fidelity and not violations and not harness_errors:
+        harness_errors.append({"harness_error": "SIMULATOR-FIDELITY: a run under real joblib (uncontrolled scheduling) disagreed with the "
+                               "simulated/1-worker result and no simulated run reproduced a violation: " + "; ".join(stats.fidelity[:3])})
+    elif stats.fidelity:
+        out_lines.append("note: a run under real joblib also disagreed with the 1-worker result (not replayable): " + stats.fidelity[0])
     if harness_errors:
         rc = EXIT_HARNESS
         for h in harness_errors[:3]:
